@@ -261,6 +261,8 @@ class C18(Check):
                 streams.append({'text': gen_tree_text(rng), 'end': end, 'k': rng.randint(0, 20)})
             else:
                 streams.append({'text': gen_python(rng), 'end': end, 'k': rng.randint(0, 30)})
+            if streams[-1]['end'] != 'parse' and len(streams) > 1 and rng.random() < 0.12:
+                streams[-1]['precreated'] = True
             if driver != 'direct' and rng.random() < 0.25:
                 # the source is handed over as a TextSlice of a larger text: a stream of its own all the same
                 streams[-1]['slice'] = [rng.choice(SLICE_PREFIXES), rng.choice(SLICE_SUFFIXES)]
@@ -352,6 +354,7 @@ class C18(Check):
         abnormal_before = False
         nontrivial = False
         held = []
+        precreated = {}
 
         def fail(kind, si, **kw):
             out.violation = Violation(kind, stream=si, driver=driver, **kw)
@@ -402,11 +405,18 @@ class C18(Check):
                     nontrivial = True
                 log.append([si, 'parse', outcome])
                 continue
-            if driver == 'direct':
-                toks = [Token(ty, v, pos[0], pos[1], pos[2], pos[4], pos[5], pos[3]) for ty, v, pos in raw]
-                gen = ind.process(iter(toks))
-            else:
-                gen = self._lex_stream(p if driver == 'lark' else self.py_basic, inp)
+            def make_gen(st_):
+                if driver == 'direct':
+                    toks = [Token(ty, v, i * 3, 1 + i // 5, 1 + i % 5, 1 + i // 5, 1 + i % 5 + len(v), i * 3 + len(v)) for i, (ty, v) in enumerate(st_['tokens'])]
+                    return ind.process(iter(toks))
+                return self._lex_stream(p if driver == 'lark' else self.py_basic, self._inp(st_))
+            gen = precreated.pop(si, None) or make_gen(st)
+            nxt = plan['streams'][si + 1] if si + 1 < len(plan['streams']) else None
+            if nxt is not None and nxt.get('precreated') and nxt['end'] != 'parse':
+                # the caller obtains the NEXT stream's generator now and consumes it only after this stream is done with
+                # (streams created up front, consumed one after the other: no interleaving)
+                precreated[si + 1] = make_gen(nxt)
+                out.count('probe:stream-created-before-the-previous-one-is-consumed')
             limit = None if end in ('full', 'parse') else k
             try:
                 n = 0
